@@ -65,7 +65,10 @@ pub fn single(r: &mut Rng, w: usize, c: usize) -> (Vec<u64>, &'static str) {
 }
 
 pub fn nonzero(r: &mut Rng, w: usize, c: usize) -> (Vec<u64>, &'static str) {
-    let (v, n) = single(r, w, if c % NSINGLE == 0 { 9 } else { c });
+    let (mut v, n) = single(r, w, if c % NSINGLE == 0 { 9 } else { c });
+    if v.iter().all(|&l| l == 0) {
+        v[w - 1] = 1;
+    }
     (v, n)
 }
 
